@@ -32,6 +32,7 @@ func checkC09(c *Ctx) {
 	ruleStartNonBlank(c)
 	ruleEdgeLine(c)
 	ruleCollectBound(c)
+	ruleFenceIndent(c)
 }
 
 // readerCtor reports a call that builds an inlineByteReader from a node window and a position:
